@@ -305,6 +305,15 @@ DerivedClauses(e) ==
           Cl("C05.unit_of_result", kn /\ ok, KU(Res, ru)),
           Cl("C04.mag", knr /\ inr,
                  IsFin(amt) /\ XLe(XMul(XAbsDiff(XMul(XMul(amt, S), d), n), tS.lm), tS.tol)),
+          Cl("C04.inverse", knr /\ inr /\ Has(e, "back") /\ Ok(e.back) /\ ~XIsZero(b) /\ (BE = "f64" \/ REGIME = "exact")
+                            /\ KU(L, e.back.ok.u),
+                 \* (x op y) op^-1 y gives x back: same magnitude within three operations' rounding
+                 LET Mx == XMul(a, sa)
+                     Mb == XMul(e.back.ok.a, OScale(L, e.back.ok.u))
+                     lhs == XAbsDiff(Mb, Mx)
+                 IN  IsFin(e.back.ok.a) /\
+                     (IF REGIME = "exact" THEN XIsZero(lhs)
+                      ELSE XLe(lhs, XMulInt(RelTol(Mx), 3)) \/ XLe(lhs, XAdd(XMulInt(RelTol(Mx), 3), XScale2(OScale(L, e.back.ok.u), -1070))))),
           Cl("C05.ref_in_ref_out", knr /\ OUnit(L, e.x.u).is_ref /\ OUnit(R, e.y.u).is_ref,
                  OUnit(Res, ru).is_ref),
           Cl("C05.natural", knr /\ nat # {},
